@@ -14,13 +14,14 @@ from typing import Dict, List
 
 from ..cell_rules import check_config_families, check_occupancy, check_tagger_algebra
 from ..config_graph import ConfigGraph
-from ..core import AnalysisError, Loc, Report, Source, norm
+from ..core import IdiomNotRecognised, AnalysisError, Loc, Report, Source, norm
 from ..handlers import HandlerFacts
 from ..inifront import load_all
 from ..pools import check_factor_files_symmetric, check_factor_taggers
 from ..pyfront import Program, body_without_docstring, param_names, self_attr
 from ..guards import atoms, path_conditions
 from ..normalize import canon
+from ..resolve import Resolver
 from ..selftest import Edit
 
 ID = "C10"
@@ -55,6 +56,15 @@ def check_factor_generators(prog: Program, rep: Report) -> None:
                 return isinstance(r, ast.Call) and isinstance(r.func, ast.Attribute) and r.func.attr == "setdefault" \
                     and self_attr(r.func.value) is not None and r.args and norm(r.args[0]) == var
             app = [c for c in ast.walk(loops[0]) if files_under(c)]
+            if len(app) > 1:
+                # further tables may be filled alongside: the rule is about the map the generators read
+                def table_of(c: ast.AST):
+                    r = c.func.value
+                    return self_attr(r.value) if isinstance(r, ast.Subscript) else self_attr(r.func.value)
+                the_map = [c for c in app if table_of(c) == "_map"]
+                app = the_map if len(the_map) == 1 else app
+            if len(app) != 1:
+                ok = None
             if len(app) == 1:
                 exits: List[str] = []
                 conds = path_conditions(loops[0].body, app[0], exits) or []
@@ -83,6 +93,13 @@ def check_factor_generators(prog: Program, rep: Report) -> None:
             return isinstance(it, ast.Call) and norm(it.func) == "self._map.get" and len(it.args) == 2 and norm(it.args[0]) == f"{a}[1]" \
                 and norm(it.args[1]) in ("()", "[]")
         inner = [n for n in ast.walk(g) if isinstance(n, ast.For) and index_sets(n.iter)]
+        if not inner:
+            # the loop over the index sets filed under the active index is not written in a form that is followed (another table, a
+            # look-up bound to a local with an early exit, ..): the rules on the instantiation have nothing to attach to
+            for r_ in ("R10.5-generator-shape", "R10.5-local-instantiation" if local else "R10.5-nonlocal-instantiation") + \
+                    (() if local else ("R10.5-nonlocal-once-per-other-object",)):
+                rep.ob(r_, None, loc, g.name, "idiom not recognised: loop over the index sets of the active index not found")
+            continue
         rep.ob("R10.5-generator-shape", len(ys) == 1 and len(inner) == 1, loc, f"{g.name}: one tuple per index set containing the active index",
                "the generator must yield exactly one in-state per index set of the active point mass's index")
         if not ys:
@@ -173,6 +190,8 @@ def analyse(src: Source) -> List[Report]:
     check_tagger_algebra(prog, rep)
     check_occupancy(prog, rep)
     check_factor_generators(prog, rep)
+    from ..memo import check_memo_keys
+    check_memo_keys(prog, rep, "R10.7-memo-key", ("jellyfysh/activator/",))
     from ..cell_rules import check_active_cell_level
     check_active_cell_level(prog, rep, "R10.2-active-cell-at-cell-level")
     cfgs = load_all(prog)
@@ -183,6 +202,26 @@ def analyse(src: Source) -> List[Report]:
         g.explore(rep, ("C10",))
         check_factor_taggers(prog, cfg, g, rep, ("R1.2",))
     check_factor_files_symmetric(prog, cfgs, rep)
+    # the index sets are read as whole integers: iterating over a matched STRING yields characters, so `int(c) for c in match.group(1)`
+    # splits every index >= 10 into digits (all shipped files use single digits and parse the same)
+    fmod = prog.modules.get("jellyfysh.activator.tagger.factor_type_maps")
+    n_int = 0
+    for fn_ in [f_ for f_ in ast.walk(fmod.tree) if isinstance(f_, ast.FunctionDef)] if fmod else []:
+        RF_ = Resolver(fn_)
+        for loop_ in [x for x in ast.walk(fn_) if isinstance(x, (ast.For, ast.comprehension))]:
+            it_ = RF_.res(loop_.iter)
+            is_string = isinstance(it_, ast.Call) and isinstance(it_.func, ast.Attribute) and it_.func.attr in ("group", "strip", "lstrip", "rstrip", "replace")
+            if not is_string or not isinstance(loop_.target, ast.Name):
+                continue
+            scope_ = fn_
+            uses_ = [c_ for c_ in ast.walk(scope_) if isinstance(c_, ast.Call) and norm(c_.func) == "int" and len(c_.args) == 1
+                     and isinstance(c_.args[0], ast.Name) and c_.args[0].id == loop_.target.id]
+            for u_ in uses_:
+                n_int += 1
+                rep.ob("R10.4-indices-whole-tokens", False, Loc(FTM, u_.lineno, fn_.name), u_,
+                       f"`{norm(u_)}` converts the characters of the matched string `{norm(loop_.iter)}` one by one: an index of two digits "
+                       f"becomes two indices")
+    rep.ob("R10.4-indices-whole-tokens", True, Loc(FTM, 0, "factor_type_maps"), "index sets are converted token by token", "")
     rep.unit("config_files", len(cfgs))
     rep.expect_min("R10.1-excluded-is-nearby", 1)
     rep.expect_min("R10.1-bounding-is-complement", 1)
@@ -191,7 +230,22 @@ def analyse(src: Source) -> List[Report]:
     rep.expect_min("R1.2-mirror-closed", 8)
     rep.expect_min("R1.2-label-resolves", 35)
     rep.expect_min("R10.5-generator-shape", 2)
-    return [rep]
+    # a far cell is reached only through the cell-veto proposal: the walker tables and the sampling of the target cell (C18) are the
+    # far-field part of the decomposition
+    reports = [rep]
+    from . import c18
+    try:
+        included = c18.analyse(src)
+    except IdiomNotRecognised as e_:
+        rep.ob("R18.0-included-rule-set", None, Loc("jellyfysh", 0, "c18"), "c18", f"idiom not recognised: {e_}")
+        included = []
+    for r in included:
+        r.prop = ID
+        for f in r.findings:
+            f.prop = ID
+        reports.append(r)
+    return reports
+
 
 
 T = "jellyfysh/activator/tagger/"
